@@ -5,10 +5,10 @@ sys.path.insert(0, os.path.dirname(os.path.abspath(__file__)))
 from qco import common as C
 
 def main():
+    ok4, out = C.build_harness(); print(out[-1000:])   # first: the translator asks the compiled library
     ok, msg = C.extract_constants(); print(msg)
     ok2, out = C.lake_build([]); print(out[-2000:])
     ok3, out = C.lake_build(["qcodrv"]); print(out[-500:])
-    ok4, out = C.build_harness(); print(out[-1000:])
     sys.exit(0 if (ok and ok2 and ok3 and ok4) else 1)
 
 if __name__ == "__main__":
